@@ -22,9 +22,9 @@ L0 == [in    |-> [timestamp |-> 0, asset |-> 1, exchange |-> 2, holder |-> 3, tr
        intra |-> [timestamp |-> 0, asset |-> 1, from_exchange |-> 2, from_holder |-> 3, to_exchange |-> 4, to_holder |-> 5, spot_price |-> 6,
                   crypto_sent |-> 7, crypto_received |-> 8, unique_id |-> 11]]
 
-N_(n) == [k |-> "n", n |-> n, s |-> "", off |-> 0, tz |-> FALSE]
-S_(s) == [k |-> "s", n |-> 0, s |-> s, off |-> 0, tz |-> FALSE]
-T_(t, z) == [k |-> "t", n |-> t, s |-> "", off |-> 0, tz |-> z]
+N_(n) == [k |-> "n", n |-> n, s |-> "", off |-> 0, tz |-> FALSE, us |-> 0]
+S_(s) == [k |-> "s", n |-> 0, s |-> s, off |-> 0, tz |-> FALSE, us |-> 0]
+T_(t, z) == [k |-> "t", n |-> t, s |-> "", off |-> 0, tz |-> z, us |-> 250000]
 X_ == EmptyCell
 Din    == <<T_(1000, TRUE), S_("B1"), S_("Exa"), S_("Hoa"), S_("buy"), N_(3), N_(5), X_, X_, X_, N_(1), S_("u1")>>
 Dfee   == <<T_(1000, TRUE), S_("B1"), S_("Exa"), S_("Hoa"), S_("buy"), N_(3), N_(5), N_(1), X_, X_, X_, S_("u2")>>
